@@ -56,7 +56,15 @@ RULE = (
     "representative of every distinct directory shape left by level i. evaluations = forked executions "
     "judged by the oracle. non-trivial = the process died strictly inside the protocol (0 < k < N), the "
     "schedule has length >= 2 and an earlier write of the schedule also died strictly inside; distinct = "
-    "(site, payload sizes, pieces, list of crash boundaries of the schedule). Sub-check 'fixed' runs the same "
+    "(site, payload sizes, pieces, list of crash boundaries of the schedule). Besides death, each case draws a "
+    "kind of *failing* operation (OSError ENOSPC/EDQUOT/EIO/EFBIG; 'once' = only that operation fails, 'sticky' = "
+    "every later write fails too, 'rlimit' = a forked child with RLIMIT_FSIZE set to the middle of each raw write, "
+    "so the kernel itself returns EFBIG): for every write of the first two levels and from every start directory, "
+    "every operation of the write (open, each raw write piece, close, rename/replace, remove) is made to fail "
+    "once, control returns to the program, and the oracle is applied to the directory after every later "
+    "operation of that write (= death at that instant) and when the write has ended, whether it carried on or "
+    "raised (raising is the loud, allowed outcome). Directories left by failed writes join the start "
+    "directories of the next level. Sub-check 'fixed' runs the same "
     "exploration on a fixed list of small payloads for every call site (identical in every run; 'exhaustive' "
     "refers to that list). Sub-check 'syscall' (thorough) repeats 2-3 drawn crash points per case on an "
     "uninstrumented python process killed by strace at the corresponding system call."
@@ -67,8 +75,12 @@ ASSUMPTIONS = [
     "no power failure: what the OS has accepted survives (os._exit / SIGKILL semantics, no fsync modelling)",
     "the first write into an empty directory is outside the property ('written over an existing one'); every "
     "schedule starts from a directory holding one complete checkpoint",
-    "checkpoint_all (a fresh file name per epoch, overwrite=True) never writes over an existing checkpoint; "
-    "it is not a call site here",
+    "checkpoint_all (a fresh file name per epoch, overwrite=True) does not write over an existing checkpoint when the "
+    "name contains '.json'; only the case where it does (a name without '.json', site optimizer_run_all in the "
+    "sub-check 'fixed') is a call site here",
+    "a failing operation is not performed at all (a write that fails has written nothing; with 2 pieces per raw write "
+    "the first piece may be on disk); close releases the descriptor even when it reports an error; 'sticky' "
+    "failures affect writes only (rename/remove need no space)",
     "'previous' after several interrupted writes = any complete checkpoint written earlier in the schedule; the oracle "
     "only demands that some complete one exists and that `name` is complete whenever it exists",
     "the crash children are forked from a single-threaded python worker (OS thread count is recorded in the "
@@ -80,6 +92,7 @@ ASSUMPTIONS = [
 
 SUFFIXES = ("", ".old", ".new")
 CK = "checkpoint.json"
+CK_NOEXT = "checkpoint"  # a checkpoint name the user chose without the ".json" ending
 EXIT_CRASH = 137
 EXIT_RAISED = 3
 EXIT_HARNESS = 4
@@ -608,7 +621,8 @@ class Site:
         self.kind = case["site"]
         sizes = case["sizes"]
         two = case.get("two_d", [False] * len(sizes))
-        if self.kind.endswith("_run"):  # the algorithms themselves are only defined for vectors
+        self.fname = CK_NOEXT if self.kind == "optimizer_run_all" else CK
+        if "_run" in self.kind:  # the algorithms themselves are only defined for vectors
             two = [False] * len(sizes)
         self.two = two
         dic = {}
@@ -631,9 +645,11 @@ class Site:
                 ops = [{"id": "op", "type": "ScalerOperator", "parameters": ids, "weight": 1.0, "scaler": 0.9}]
             spec = {"id": "mcmc", "type": "MCMC", "joint": "joint", "iterations": 1, "checkpoint": CK, "checkpoint_frequency": 1,
                     "every": 0, "operators": ops}
-        elif k in ("optimizer", "optimizer_run"):
+        elif k in ("optimizer", "optimizer_run", "optimizer_run_all"):
             spec = {"id": "opt", "type": "Optimizer", "algorithm": "torch.optim.Adam", "options": {"lr": 0.01}, "maximize": True,
-                    "iterations": 1, "checkpoint": CK, "checkpoint_frequency": 1, "loss": "joint", "parameters": ids}
+                    "iterations": 1, "checkpoint": self.fname, "checkpoint_frequency": 1, "loss": "joint", "parameters": ids}
+            if k == "optimizer_run_all":  # one file per checkpoint: "<name minus .json>-<epoch>.json"
+                spec["checkpoint_all"] = True
         elif k == "hmc_run":
             spec = {"id": "hmc", "type": "HMC", "joint": "joint", "parameters": ids, "iterations": 1, "checkpoint": CK,
                     "checkpoint_frequency": 1, "every": 1000000,
@@ -678,26 +694,28 @@ class Site:
         return w
 
 
-def reference_texts(write_of, n, tmp, pieces, seed):
+def reference_texts(write_of, n, tmp, pieces, seed, name=CK):
     """what an uninterrupted write of version i produces in a fresh directory (one child per version)"""
     out = []
     for i in range(n):
         d = os.path.join(tmp, "ref%d" % i)
         os.makedirs(d)
-        p = os.path.join(d, CK)
+        p = os.path.join(d, name)
         code, info = run_write(write_of(i), p, None, pieces, seed)
         if code != 0:
             return None, info
         st_ = read_dir(d)
-        if set(st_) != {CK}:
+        if len(st_) != 1:  # (the file need not be called `name`: checkpoint_all derives a name per epoch)
             raise HarnessError("C18: a write into an empty directory left %r" % sorted(st_))
-        out.append(st_[CK])
+        out.append(list(st_.values())[0])
         shutil.rmtree(d)
     return out, None
 
 
 # =========================================================================== generator
-BUDGET = {"quick": {1: 9000, 2: 3000, 3: 900, 4: 350}, "thorough": {1: 40000, 2: 9000, 3: 2500, 4: 900}}
+FAULTS = [{"mode": "sticky", "errno": "ENOSPC"}, {"mode": "sticky", "errno": "EDQUOT"}, {"mode": "once", "errno": "EIO"},
+          {"mode": "once", "errno": "ENOSPC"}, {"mode": "rlimit", "errno": "EFBIG"}, {"mode": "sticky", "errno": "EFBIG"}]
+BUDGET = {"quick": {1: 9000, 2: 2200, 3: 900, 4: 350}, "thorough": {1: 40000, 2: 9000, 3: 2500, 4: 900}}
 
 
 def cases(tier="quick", sites=SITES):
@@ -722,7 +740,7 @@ def cases(tier="quick", sites=SITES):
         scales = draw(st.lists(fl(0.1, 10.0), min_size=depth + 1, max_size=depth + 1, unique=True))
         return {"site": site, "sizes": sizes, "two_d": two, "scales": scales, "depth": depth,
                 "pieces": draw(st.sampled_from([1, 1, 2])), "picks": draw(st.lists(st.integers(0, 50), min_size=1, max_size=4)),
-                "torch_seed": draw(st.integers(0, 2**31 - 1))}
+                "fault": draw(st.sampled_from(FAULTS)), "torch_seed": draw(st.integers(0, 2**31 - 1))}
 
     return gen()
 
@@ -762,7 +780,7 @@ def _body(c, tmp):
     if threading.active_count() != 1:
         raise HarnessError("C18: fork from a multi-threaded python process")
     seed = c.get("torch_seed", 0)
-    versions, info = reference_texts(site.write_of, c["depth"] + 1, tmp, 1, seed)
+    versions, info = reference_texts(site.write_of, c["depth"] + 1, tmp, 1, seed, site.fname)
     if versions is None:
         return res.fail("raises:" + info["raised"], {"message": info["message"], "where": "write into an empty directory"}, prestate="empty", bucket="empty")
     for i, v in enumerate(versions):
@@ -773,7 +791,9 @@ def _body(c, tmp):
     if len(set(versions)) != len(versions):
         raise HarnessError("C18: two versions of the checkpoint have identical text")
     ident = (c["site"], c["sizes"], c["two_d"], c["pieces"])
-    evals, keys, labels, _ = explore(site.write_of, versions, c["depth"], c["pieces"], c["picks"], tmp, res, res.tags, ident, seed)
+    fault = c.get("fault")
+    evals, keys, labels, _ = explore(site.write_of, versions, c["depth"], c["pieces"], c["picks"], tmp, res, res.tags, ident, seed, name=site.fname, fault=fault)
+    labels["faults:%s" % (("%s/%s" % (fault["mode"], fault["errno"])) if fault else "none")] = 1
     labels["site:" + c["site"]] = evals
     labels["file:" + size_band(max(len(v) for v in versions))] = evals
     labels["pieces:%d" % c["pieces"]] = evals
@@ -807,6 +827,14 @@ def _toy(protocol):
                     f.write(ln)
                 os.replace(path + ".new", path)
                 f.close()
+            elif protocol == "swallow":  # safe against death, but an I/O error is swallowed and the stump installed
+                try:
+                    with open(path + ".new", "w") as f:
+                        for ln in lines:
+                            f.write(ln)
+                except OSError:
+                    pass
+                os.replace(path + ".new", path)
 
         return w
 
@@ -816,9 +844,12 @@ def _toy(protocol):
 def selftest():
     tmp = tempfile.mkdtemp(prefix="vt-c18-self-")
     try:
-        for protocol, expect in (("safe", set()), ("inplace", {"name_truncated", "lost"}), ("noflush", {"name_truncated", "lost"})):
+        unsafe = {"name_truncated", "lost"}
+        sticky, rlimit = {"mode": "sticky", "errno": "ENOSPC"}, {"mode": "rlimit", "errno": "EFBIG"}
+        for protocol, fault, expect in (("safe", None, set()), ("safe", sticky, set()), ("safe", rlimit, set()), ("inplace", None, unsafe),
+                                        ("noflush", None, unsafe), ("swallow", None, set()), ("swallow", sticky, unsafe), ("swallow", rlimit, unsafe)):
             wo = _toy(protocol)
-            sub = os.path.join(tmp, protocol)
+            sub = os.path.join(tmp, "%s-%s" % (protocol, fault["mode"] if fault else "kill"))
             os.makedirs(sub)
             versions, info = reference_texts(wo, 3, sub, 1, 0)
             if versions is None:
@@ -832,11 +863,13 @@ def selftest():
                     raise HarnessError("C18 selftest: counted file object and real file object disagree")
             os.remove(real)
             res = Res(tags={"site": "toy"})
-            evals, keys, labels, _ = explore(wo, versions, 2, 2, [1], sub, res, res.tags, "toy")
+            evals, keys, labels, _ = explore(wo, versions, 1 if fault else 2, 2, [1], sub, res, res.tags, "toy", fault=fault)
             kinds = {f.kind for f in res.fails}
             if kinds != expect:
-                raise HarnessError("C18 selftest: toy protocol %r gave %r, expected %r" % (protocol, sorted(kinds), sorted(expect)))
-            if evals < 10 or (protocol == "safe" and not keys):
+                raise HarnessError("C18 selftest: toy protocol %r with faults %r gave %r, expected %r" % (protocol, fault, sorted(kinds), sorted(expect)))
+            if fault and not any(k.startswith("fault:") for k in labels):
+                raise HarnessError("C18 selftest: no failing operation was injected (%r)" % (fault,))
+            if evals < 10 or (protocol == "safe" and not fault and not keys):
                 raise HarnessError("C18 selftest: exploration too small (%d executions)" % evals)
     finally:
         shutil.rmtree(tmp, ignore_errors=True)
@@ -995,19 +1028,22 @@ def _body_syscall(c, tmp):
 def fixed_cases(tier):
     """the same small payloads in every run, whatever the seed: every call site, complete schedule tree"""
     out = []
-    for site in SITES:
+    for i, site in enumerate(SITES):
         if tier == "quick":
-            out.append({"site": site, "sizes": [2], "two_d": [False], "scales": [1.5, 2.5, 3.5], "depth": 2, "pieces": 1, "picks": [0], "torch_seed": 1})
+            out.append({"site": site, "sizes": [2], "two_d": [False], "scales": [1.5, 2.5, 3.5], "depth": 2, "pieces": 1, "picks": [0],
+                        "fault": FAULTS[(0, 4, 2)[i % 3]], "torch_seed": 1})
         else:
-            for sizes, depth in (([2], 4), ([700, 3], 3)):
+            for j, (sizes, depth) in enumerate((([2], 4), ([700, 3], 3))):
                 out.append({"site": site, "sizes": sizes, "two_d": [False] * len(sizes), "scales": [1.5, 2.5, 3.5, 4.5, 5.5][: depth + 1],
-                            "depth": depth, "pieces": 2, "picks": [0, 1, 2, 3], "torch_seed": 1})
+                            "depth": depth, "pieces": 2, "picks": [0, 1, 2, 3], "fault": FAULTS[(i + 3 * j) % len(FAULTS)], "torch_seed": 1})
+    # Optimizer with checkpoint_all and a checkpoint name without ".json": one interrupted write
+    out.append({"site": "optimizer_run_all", "sizes": [2], "two_d": [False], "scales": [1.5, 2.5], "depth": 1, "pieces": 1, "picks": [0], "fault": None, "torch_seed": 1})
     return out
 
 
 def subchecks(tier):
     subs = [
-        Sub("schedules", body, strategy=lambda: cases(tier), quick=32, thorough=320, pretags=pretags, shrink_s=20),
+        Sub("schedules", body, strategy=lambda: cases(tier), quick=16, thorough=220, pretags=pretags, shrink_s=20),
         Sub("fixed", body, enumerate=fixed_cases, exhaustive=True, pretags=pretags),
     ]
     if tier == "thorough":
